@@ -35,6 +35,55 @@ def handle (op : String) (j : Json) : Except String Json := do
                          ("lengths", lensJ (recs.map (fun r => (firstWord r.header, r.seq.length)))),
                          ("fai", Json.str (ofB (faiText spec)))]
     pure (reply m (some s))
+  | "session" =>
+    -- several calls on one open object: the model is stateless, every step is computed from the index and the file
+    let idx := (readIndex (faiText (createIndex file))).getD []
+    let steps ← getArr j "steps"
+    let out ← steps.mapM (fun st => do
+      let k ← getStr st "k"
+      match k with
+      | "fetch" =>
+        let ivs ← getArr st "ivs"
+        let rs ← ivs.mapM (fun iv => do
+          let n ← getStr iv "name"
+          let a ← getNat iv "a"
+          let b ← getNat iv "b"
+          pure (match lookup idx (toB n) with
+            | some r => Json.str (ofB (fetchInterval file r a b))
+            | none => Json.null))
+        pure (Json.arr rs.toArray)
+      | "contig" =>
+        let n ← getStr st "name"
+        pure (match lookup idx (toB n) with
+          | some r => Json.str (ofB (fetchContig file r))
+          | none => Json.null)
+      | "items" => pure (Json.arr (idx.map (fun r => Json.arr #[Json.str (ofB r.name), Json.str (ofB (fetchContig file r))])).toArray)
+      | "values" => pure (Json.arr (idx.map (fun r => Json.str (ofB (fetchContig file r)))).toArray)
+      | "lengths" => pure (lensJ (contigLengths idx))
+      | _ => throw s!"C17: unknown step {k}")
+    let sOut ← steps.mapM (fun st => do
+      let k ← getStr st "k"
+      match k with
+      | "fetch" =>
+        let ivs ← getArr st "ivs"
+        let rs ← ivs.mapM (fun iv => do
+          let n ← getStr iv "name"
+          let a ← getNat iv "a"
+          let b ← getNat iv "b"
+          pure (match recs.find? (fun r => firstWord r.header == toB n) with
+            | some r => Json.str (ofB ((r.seq.drop a).take (b - a)))
+            | none => Json.null))
+        pure (Json.arr rs.toArray)
+      | "contig" =>
+        let n ← getStr st "name"
+        pure (match recs.find? (fun r => firstWord r.header == toB n) with
+          | some r => Json.str (ofB r.seq)
+          | none => Json.null)
+      | "items" => pure (Json.arr (recs.map (fun r => Json.arr #[Json.str (ofB (firstWord r.header)), Json.str (ofB r.seq)])).toArray)
+      | "values" => pure (Json.arr (recs.map (fun r => Json.str (ofB r.seq))).toArray)
+      | "lengths" => pure (lensJ (recs.map (fun r => (firstWord r.header, r.seq.length))))
+      | _ => throw s!"C17: unknown step {k}")
+    pure (reply (Json.arr out.toArray) (some (Json.arr sOut.toArray)))
   | "create_index" =>
     -- the rows create_index returns (before they are written): also for empty / blank / blank-led headers
     let m := Json.mkObj [("rows", Json.arr ((createIndex file).map rowJ).toArray)]
